@@ -16,3 +16,24 @@ Theorem canonical_classes_edges_unique :
     end.
 Proof. exact (@CanonProofs.canonical_classes_edges_unique). Qed.
 Print Assumptions canonical_classes_edges_unique.
+
+(* The full statement: atom k has the same element, isotope mass, radical state and class in both
+   results and j, k are bonded in one exactly when they are in the other (SameView: the lists
+   (label, (element, mass, radical), class) and the normalised bond lists are permutations of each
+   other; labels are unique, so this is equality of the two maps and of the two edge sets).
+   Payload (charges, coordinates, bond orders) is not part of the view.
+   `nozero`: no atom stores an explicit 0 as mass or radical (what the readers and the parser
+   guarantee); without it "mass absent" and "mass = 0" fall into one class by construction of
+   the invariant code. *)
+Require Import ViewProofs CanonView.
+Theorem canonical_graph_unique :
+  forall (P B P' B' : Type) canon, H2 canon ->
+  forall (f : N -> N) (m : mol P B) (m' : mol P' B'), wfg m -> SameMol f m m' ->
+    (forall x, In x (atoms m) -> nozero x) ->
+    match canonicalize canon m, canonicalize canon m' with
+    | Some c, Some c' => SameView c c'
+    | None, None => True
+    | _, _ => False
+    end.
+Proof. exact (@CanonView.canonical_graph_unique). Qed.
+Print Assumptions canonical_graph_unique.
